@@ -340,6 +340,12 @@ example : validatorSet [5, 3, 5, 9, 3] = [3, 5, 9] := by
 /-- FRAME LEMMA: a discarded execution is the identity on the node (its committed state is all there is) -/
 theorem discard_frame {σ β ρ : Type} (m : Machine σ β ρ) (n : Node σ) (b : β) : m.discard n b = n := rfl
 
+/-- the result of a block does not depend on the call path by which the node reached its execution (obligation of the
+    implementation: no stack trace, caller, build path or executable name may flow into results — site kind
+    `execution-context-capture`, twins / replicas reached through different call paths) -/
+theorem step_callpath_irrelevant {σ β ρ : Type} (m : Machine σ β ρ) (p q : List String) (n : Node σ) (b : β) :
+    m.execVia p n b = m.execVia q n b := rfl
+
 /-- a fresh fork has the committed state of its origin -/
 theorem fork_committed {σ : Type} (n : Node σ) : (Machine.forkOf n).committed = n.committed := rfl
 
@@ -349,6 +355,12 @@ theorem exec_congr {σ β ρ : Type} (m : Machine σ β ρ) (n₁ n₂ : Node σ
     (m.exec n₁ b).1.committed = (m.exec n₂ b).1.committed ∧ (m.exec n₁ b).2 = (m.exec n₂ b).2 := by
   unfold Machine.exec
   simp [h]
+
+/-- two nodes with equal committed state reached through different call paths agree -/
+theorem exec_via_congr {σ β ρ : Type} (m : Machine σ β ρ) (p q : List String) (n₁ n₂ : Node σ) (b : β)
+    (h : n₁.committed = n₂.committed) :
+    (m.execVia p n₁ b).1.committed = (m.execVia q n₂ b).1.committed ∧ (m.execVia p n₁ b).2 = (m.execVia q n₂ b).2 :=
+  exec_congr m n₁ n₂ b h
 
 /-- every replica operation preserves "the two nodes have the same committed state" and a block reports equal results -/
 theorem repStep_agree {σ β ρ : Type} (m : Machine σ β ρ) (p : Node σ × Node σ) (o : RepOp β)
